@@ -145,13 +145,30 @@ class Checker:
         clear_report()
         contextualize_report(src)
         self.n = 0
+        Checker.made += 1
+        if Checker.made % 2 == 0:
+            # the usual start of a grading script: the Source tool checks (and keeps a tree of) the submission first
+            from pedal.source import verify
+            verify()
+            ctx.count('programs_verified_by_source_first')
+
+    made = 0
+    OTHER = [('zzz = 99 % 7\nprint(zzz)\nimport os\n', 'print(___)', 1, 'For', 0), ('for q in [1]:\n    print(q)\n    print(q, q)\n', 'print(___)', 1, 'For', 1),
+             ('import json\nqq = [1] * 3\nwhile qq:\n    qq.pop()\n', 'qq.pop()', 1, 'While', 1)]
 
     def disturb(self):
-        """ask CAIT about some other code in between (a stale tree must not leak into later queries)"""
-        from pedal.cait.cait_api import find_matches, parse_program
+        """ask CAIT about some other code in between (a stale tree must not leak into later queries - and the answer about the
+        other code is an answer about THAT code, not about the submission)"""
+        from pedal.cait.cait_api import find_matches, parse_program, find_asts
         self.n += 1
         if self.n % 5 == 0:
-            find_matches('print(___)', 'zzz = 99 % 7\nprint(zzz)\nimport os\n')
+            code, pattern, want_matches, node, want_nodes = self.OTHER[(self.n // 5) % len(self.OTHER)]
+            got_nodes = len(find_asts(node, student_code=code))
+            got = len(find_matches(pattern, code))
+            self.ctx.count('queries_about_other_code_checked')
+            if (got >= 1) != (want_matches >= 1) or got_nodes != want_nodes:
+                self.ctx.violation('C08|query-about-other-code-answered-from-another-tree', {'src': self.src[:2000], 'origin': self.origin, 'other_code': code, 'pattern': pattern, 'node': node},
+                                   'other code has %d %s nodes and matches %r: got %d nodes, %d matches' % (want_nodes, node, pattern, got_nodes, got))
         elif self.n % 7 == 0:
             parse_program('import json\nqq = [1] * 3\n')
         elif self.n % 11 == 0:
